@@ -64,8 +64,8 @@ theorem cycleLeft_mono (vr : Variant) (asm : Asm) (st : Stk) (d b : Nat) :
   · exact Res.le_refl _
   · exact h _ _ _ _
 
-theorem cycleRight_mono (asm : Asm) (st : Stk) (a d : Nat) :
-    Res.le (cycleRight rec asm st a d) (cycleRight rec' asm st a d) := by
+theorem cycleRight_mono (vr : Variant) (asm : Asm) (st : Stk) (a d : Nat) :
+    Res.le (cycleRight vr rec asm st a d) (cycleRight vr rec' asm st a d) := by
   unfold cycleRight; split
   · exact Res.le_refl _
   · exact h _ _ _ _
@@ -225,7 +225,7 @@ theorem relStep_mono (vr : Variant) (T : Table) (mode : Mode)
   all_goals first
     | exact Res.le_refl _
     | exact cycleLeft_mono h _ _ _ _ _
-    | exact cycleRight_mono h _ _ _ _
+    | exact cycleRight_mono h _ _ _ _ _
     | exact unionLeft_mono h _ _ _ _ _ _ _
     | exact unionRight_mono h _ _ _ _ _ _
     | exact tupleTuple_mono h _ _ _ _ _ _ _
